@@ -16,55 +16,64 @@ def sh(cmd, **kw):
     return subprocess.run(cmd, shell=isinstance(cmd, str), capture_output=True, text=True, **kw)
 
 
+def one(patch, a):
+    d = os.path.dirname(patch)
+    name = os.path.basename(d)
+    meta = json.load(open(os.path.join(d, "meta.json")))
+    wt = tempfile.mkdtemp(prefix="seedwt-")
+    os.rmdir(wt)
+    try:
+        r = sh(["git", "-C", "/repo", "worktree", "add", "-q", "--detach", wt, "HEAD"])
+        if r.returncode:
+            print(name, "worktree failed", r.stderr)
+            return None
+        for so in glob.glob("/repo/matid/*.so"):
+            shutil.copy(so, os.path.join(wt, "matid"))
+        env = dict(os.environ, PYTHONPATH=wt, PYTHONDONTWRITEBYTECODE="1")
+        demo = os.path.join(d, "demo.py")
+        res = {"name": name, "property": meta["property"]}
+        if a.confirm:
+            res["demo_clean"] = sh([PY, demo], env=env, cwd=wt).returncode
+        r = sh(["git", "-C", wt, "apply", patch])
+        if r.returncode:
+            print(name, "patch does not apply:", r.stderr.strip())
+            return None
+        if a.confirm:
+            res["demo_patched"] = sh([PY, demo], env=env, cwd=wt).returncode
+            t = sh([PY, "-m", "pytest", "-q", "-p", "no:cacheprovider", "--timeout=900", "-x"], env=env, cwd=wt)
+            res["pytest"] = t.stdout.strip().splitlines()[-1] if t.stdout.strip() else t.stderr[-200:]
+        pids = CLAIMED if a.all_checks else [meta["property"]]
+        fired = {}
+        for pid in pids:
+            c = sh([os.path.join(VERIF, "check"), pid], env=dict(os.environ, VERIF_REPO=wt, VERIF_NO_EVIDENCE="1"), cwd=VERIF)
+            rules = sorted({l.split()[1] for l in c.stdout.splitlines() if l.strip().startswith("violated ")})
+            fired[pid] = {"exit": c.returncode, "rules": rules}
+        res["checks"] = fired
+        own = fired.get(meta["property"], {})
+        print(f'{name:10s} {meta["property"]} own-check exit={own.get("exit")} rules={own.get("rules")} '
+              + (f'demo clean/patched={res.get("demo_clean")}/{res.get("demo_patched")} pytest="{res.get("pytest")}" ' if a.confirm else "")
+              + (" others: " + ", ".join(f"{p}:{v['rules']}" for p, v in fired.items() if p != meta["property"] and v["exit"] != 0) if a.all_checks else ""), flush=True)
+        return res
+    finally:
+        sh(["git", "-C", "/repo", "worktree", "remove", "--force", wt])
+        shutil.rmtree(wt, ignore_errors=True)
+
+
 def main():
     ap = argparse.ArgumentParser()
     ap.add_argument("names", nargs="*")
     ap.add_argument("--confirm", action="store_true", help="re-run pinned suite and demo")
     ap.add_argument("--all-checks", action="store_true")
+    ap.add_argument("--jobs", type=int, default=1)
     a = ap.parse_args()
     seeds = sorted(glob.glob(os.path.join(VERIF, "seeded", "*", "patch.diff")))
     rows = []
-    for patch in seeds:
-        d = os.path.dirname(patch)
-        name = os.path.basename(d)
-        if a.names and name not in a.names:
-            continue
-        meta = json.load(open(os.path.join(d, "meta.json")))
-        wt = tempfile.mkdtemp(prefix="seedwt-")
-        os.rmdir(wt)
-        try:
-            r = sh(["git", "-C", "/repo", "worktree", "add", "-q", "--detach", wt, "HEAD"])
-            if r.returncode:
-                print(name, "worktree failed", r.stderr); continue
-            for so in glob.glob("/repo/matid/*.so"):
-                shutil.copy(so, os.path.join(wt, "matid"))
-            env = dict(os.environ, PYTHONPATH=wt, PYTHONDONTWRITEBYTECODE="1")
-            demo = os.path.join(d, "demo.py")
-            res = {"name": name, "property": meta["property"]}
-            if a.confirm:
-                res["demo_clean"] = sh([PY, demo], env=env, cwd=wt).returncode
-            r = sh(["git", "-C", wt, "apply", patch])
-            if r.returncode:
-                print(name, "patch does not apply:", r.stderr.strip()); continue
-            if a.confirm:
-                res["demo_patched"] = sh([PY, demo], env=env, cwd=wt).returncode
-                t = sh([PY, "-m", "pytest", "-q", "-p", "no:cacheprovider", "--timeout=900", "-x"], env=env, cwd=wt)
-                res["pytest"] = t.stdout.strip().splitlines()[-1] if t.stdout.strip() else t.stderr[-200:]
-            pids = CLAIMED if a.all_checks else [meta["property"]]
-            fired = {}
-            for pid in pids:
-                c = sh([os.path.join(VERIF, "check"), pid], env=dict(os.environ, VERIF_REPO=wt, VERIF_NO_EVIDENCE="1"), cwd=VERIF)
-                rules = sorted({l.split()[1] for l in c.stdout.splitlines() if l.strip().startswith("violated ")})
-                fired[pid] = {"exit": c.returncode, "rules": rules}
-            res["checks"] = fired
-            rows.append(res)
-            own = fired.get(meta["property"], {})
-            print(f'{name:28s} {meta["property"]} own-check exit={own.get("exit")} rules={own.get("rules")} '
-                  + (f'demo clean/patched={res.get("demo_clean")}/{res.get("demo_patched")} pytest="{res.get("pytest")}" ' if a.confirm else "")
-                  + (" others: " + ", ".join(f"{p}:{v['rules']}" for p, v in fired.items() if p != meta["property"] and v["exit"] != 0) if a.all_checks else ""))
-        finally:
-            sh(["git", "-C", "/repo", "worktree", "remove", "--force", wt])
-            shutil.rmtree(wt, ignore_errors=True)
+    todo = [p for p in seeds if not a.names or os.path.basename(os.path.dirname(p)) in a.names]
+    import concurrent.futures as cf
+    with cf.ThreadPoolExecutor(a.jobs) as ex:
+        for res in ex.map(lambda p: one(p, a), todo):
+            if res:
+                rows.append(res)
     json.dump(rows, open(os.path.join(VERIF, "seeded", "RESULTS.json"), "w"), indent=1)
     missed = [r["name"] for r in rows if r["checks"].get(r["property"], {}).get("exit") != 1]
     print(f"{len(rows)} seeded changes, {len(rows) - len(missed)} detected by the check of their property, missed: {missed}")
